@@ -190,9 +190,9 @@ def lean_check(ctx, prop, extra_modules=()):
     axioms = {}
     if rc == 0:
         rc2, aout = sh(["lake", "env", "lean", "RzmqModel/Audit/%s.lean" % prop], cwd=LEAN, timeout=1200)
-        for m in re.finditer(r"'([^']+)' depends on axioms: \[([^\]]*)\]", aout):
+        for m in re.finditer(r"'(\S+)' depends on axioms: \[([^\]]*)\]", aout):
             axioms[m.group(1)] = [a.strip() for a in m.group(2).replace("\n", " ").split(",") if a.strip()]
-        for m in re.finditer(r"'([^']+)' does not depend on any axioms", aout):
+        for m in re.finditer(r"'(\S+)' does not depend on any axioms", aout):
             axioms[m.group(1)] = []
         for n in names:
             if n not in axioms:
